@@ -425,7 +425,9 @@ def fn_repeat(items):
     for (pi,) in items:
         prog = programs(2, 2)[pi]
         N = 2
-        for idx in stab.representatives(2, 0)[::9]:
+        reps = stab.representatives(2, 0)
+        pure = [i for i in reps if stab.tableaux(2)[i][2] == 0]
+        for idx in sorted(set(reps[::9]) | set(pure[::5])):
             gs0, ps0, r0 = stab.tableaux(2)[idx]
             circ, objs = build(prog, N, False)
             st = lib.ST(gs0, ps0, r0)
@@ -445,6 +447,11 @@ def fn_repeat(items):
             pr, rf, _, _ = ref_trajectory(prog, N, rho1, rec[nm:])
             if rf is None or abs((float(circ.log2prob) - lp1) - math.log2(pr)) > 1e-9 or ref.rho_key(stab.rho_of(st.gs, st.ps, st.r)) != ref.rho_key(rf):
                 viol.append(V('C14/repeat/trajectory', [pi], 'second forward of %s: suffix record %s inconsistent with the trajectory' % (list(prog), rec[nm:])))
+                continue
+            # backward after two runs: the default record is the one of the LATEST run (the state it produced is undone)
+            if nm and r0 == 0:       # backward / post-selection: pure states only (as in leg programs_*)
+                n += check_backward(prog, N, circ, st, rec[nm:], [pi], viol, 'N=2 program %s, second forward() on the same circuit object (first run recorded %s, second %s) from %s' % (
+                    list(prog), rec1, rec[nm:], stab.describe(gs0, ps0, r0)))
     return {'n': n, 'nt': n, 'viol': viol}
 
 
@@ -477,5 +484,5 @@ def legs(tier):
                    bound='N=3 family %s, all %d programs of length<=%d with a measurement on 7 fixed inputs (all ranks, signed)' % (ALPHA3, len(P3n), n3len)))
     out.append(Leg('postselect', fn_postselect, [[1, i] for i in range(48)] + [[2, i] for i in range(34560)], chunk=200, src_states=34608,
                    bound='all pure tableaux N<=2 (11520+24) x all signed observables incl. +-I x both outcomes; mixed tableaux: refusal only'))
-    out.append(Leg('repeat_forward', fn_repeat, [[pi] for pi in range(len(programs(2, 2)))], chunk=4, bound='second forward() on the same circuit: accumulation semantics'))
+    out.append(Leg('repeat_forward', fn_repeat, [[pi] for pi in range(len(programs(2, 2)))], chunk=4, bound='second forward() on the same circuit object with different coins: accumulation semantics, then backward() of the state of the second run with the default record and with every explicit record'))
     return out
